@@ -461,7 +461,7 @@ OBJ_OPS = ['setitem', 'setattr', 'delitem', 'delattr', 'append', 'insert', 'exte
 
 def shards(tier, seed):
   quick = tier == 'quick'
-  b = 40 if quick else 400
+  b = 30 if quick else 400
   out = []
   for op in TLIST_OPS:
     out.append(dict(name=f'tlist:{op}', fn='h_tlist', params=dict(op=op), args=_LA, budget_s=b, per_path_s=15))
@@ -470,7 +470,8 @@ def shards(tier, seed):
   for op in OBJ_OPS:
     for group in GROUPS:
       out.append(dict(name=f'objn:{op}:{group}', fn='h_obj_n', params=dict(op=op, group=group, single=quick and op != 'rebind_deep2'),
-                      args=_OA, budget_s=90 if quick else 400, expect_s=20, per_path_s=15, allow_vacuous=True))
+                      args=_OA, budget_s=90 if quick else 400, per_path_s=15, allow_vacuous=True,
+                      expect_s=60 if op in ('setattr', 'rebind_key', 'rebind_kwargs', 'rebind_deep', 'rebind_deep2', 'update') else 15))
       if not quick:      # leaf ints unbounded and traced (the typed list / typed dict shards do this in both tiers)
         out.append(dict(name=f'obj:{op}:{group}', fn='h_obj', params=dict(op=op, group=group, single=False), args=_OA,
                         budget_s=400, per_path_s=15))
